@@ -73,11 +73,14 @@ Theorem C11_sem_check_accepts_model : forall shipped spur initial progs tr s,
 Proof. exact sem_check_accepts_model. Qed.
 Print Assumptions C11_sem_check_accepts_model.
 
-(** ---------------------------------------------------------------- ThreadBarrierMutex (n = length gens >= 1) *)
+(** ---------------------------------------------------------------- ThreadBarrierMutex (n = length gens >= 1)
+    [sil g] = generation g is crossed with the default NoOperation lambda (wait() / wait_yield() without argument):
+    the action then runs silently; the ghost log [acts] records it all the same.  For the spin barrier
+    [y t g] = thread t crosses generation g with wait_yield (callers may be mixed within a generation). *)
 
 (** No thread leaves generation g before all participants have entered it (with or without spurious wake-ups). *)
-Theorem C11_bm_no_early_exit : forall spur gens s t u g,
-  1 <= length gens -> breachable spur (length gens) gens s ->
+Theorem C11_bm_no_early_exit : forall spur sil gens s t u g,
+  1 <= length gens -> breachable spur (length gens) sil gens s ->
   t < length gens -> u < length gens ->
   g < gen (bthr s t) -> bentered s u g.
 Proof. exact bm_no_early_exit. Qed.
@@ -85,8 +88,8 @@ Print Assumptions C11_bm_no_early_exit.
 
 (** The action runs exactly once per completed generation, in order, never for an incomplete one, and before
     anyone is released from that generation. *)
-Theorem C11_bm_action_once_before_release : forall spur gens s,
-  1 <= length gens -> breachable spur (length gens) gens s ->
+Theorem C11_bm_action_once_before_release : forall spur sil gens s,
+  1 <= length gens -> breachable spur (length gens) sil gens s ->
   map snd (acts s) = rev (seq 0 (bG s)) /\
   (forall g, count_occ Nat.eq_dec (map snd (acts s)) g = if g <? bG s then 1 else 0) /\
   (forall t g, t < length gens -> g < gen (bthr s t) -> In g (map snd (acts s))).
@@ -94,8 +97,8 @@ Proof. exact bm_action_once_before_release. Qed.
 Print Assumptions C11_bm_action_once_before_release.
 
 (** ... by the last arriver, when all others have arrived and are still inside. *)
-Theorem C11_bm_action_by_last : forall spur gens s t g s',
-  1 <= length gens -> breachable spur (length gens) gens s ->
+Theorem C11_bm_action_by_last : forall spur sil gens s t g s',
+  1 <= length gens -> breachable spur (length gens) sil gens s ->
   bstep spur s (t, OAct g) = Some s' ->
   g = gen (bthr s t) /\ g = bG s /\ ~ In t (arrived s) /\
   (forall u, u < length gens -> u <> t -> In u (arrived s) /\ binside s u /\ gen (bthr s u) = g) /\
@@ -105,23 +108,23 @@ Proof. exact bm_action_by_last. Qed.
 Print Assumptions C11_bm_action_by_last.
 
 (** Reusable for any number K of generations: the only rest state is "everybody crossed K times". *)
-Theorem C11_bm_reusable : forall n K s t,
-  1 <= n -> breachable false n (repeat K n) s -> bquiescent false s -> t < n ->
+Theorem C11_bm_reusable : forall n sil K s t,
+  1 <= n -> breachable false n sil (repeat K n) s -> bquiescent false s -> t < n ->
   bpc (bthr s t) = BDone /\ gen (bthr s t) = K.
 Proof. exact bm_reusable. Qed.
 Print Assumptions C11_bm_reusable.
 
 (** ---------------------------------------------------------------- ThreadBarrierSpin (wait and wait_yield) *)
 
-Theorem C11_bs_no_early_exit : forall y gens s t u g,
-  1 <= length gens -> sreachable (length gens) y gens s ->
+Theorem C11_bs_no_early_exit : forall y sil gens s t u g,
+  1 <= length gens -> sreachable (length gens) y sil gens s ->
   t < length gens -> u < length gens ->
   g < sgen (sthr s t) -> sentered s u g.
 Proof. exact bs_no_early_exit. Qed.
 Print Assumptions C11_bs_no_early_exit.
 
-Theorem C11_bs_action_once_before_release : forall y gens s,
-  1 <= length gens -> sreachable (length gens) y gens s ->
+Theorem C11_bs_action_once_before_release : forall y sil gens s,
+  1 <= length gens -> sreachable (length gens) y sil gens s ->
   map snd (sacts s) = rev (seq 0 (length (sacts s))) /\
   sstp s <= length (sacts s) <= sstp s + 1 /\
   (forall g, count_occ Nat.eq_dec (map snd (sacts s)) g = if g <? length (sacts s) then 1 else 0) /\
@@ -130,8 +133,8 @@ Theorem C11_bs_action_once_before_release : forall y gens s,
 Proof. exact bs_action_once_before_release. Qed.
 Print Assumptions C11_bs_action_once_before_release.
 
-Theorem C11_bs_action_by_last : forall y gens s t g s',
-  1 <= length gens -> sreachable (length gens) y gens s ->
+Theorem C11_bs_action_by_last : forall y sil gens s t g s',
+  1 <= length gens -> sreachable (length gens) y sil gens s ->
   sstep s (t, OAct g) = Some s' ->
   g = sgen (sthr s t) /\ g = sstp s /\ (exists l, sarrived s = t :: l) /\
   (forall u, u < length gens -> u <> t ->
@@ -142,8 +145,8 @@ Proof. exact bs_action_by_last. Qed.
 Print Assumptions C11_bs_action_by_last.
 
 (** Reusable for any K: the barrier cannot be stuck in its busy loops short of the end. *)
-Theorem C11_bs_no_livelock : forall n y K s t,
-  1 <= n -> sreachable n y (repeat K n) s ->
+Theorem C11_bs_no_livelock : forall n y sil K s t,
+  1 <= n -> sreachable n y sil (repeat K n) s ->
   (forall e s', sstep s e = Some s' -> is_spin s e) ->
   t < n -> spc (sthr s t) = SDone /\ sgen (sthr s t) = K.
 Proof. exact bs_no_livelock. Qed.
